@@ -50,7 +50,12 @@ CHECKS.update({
    note="Crash points = pass boundaries; 15 programs x 18 passes quick."),
 })
 
-for _k in ("C17", "C18", "C19"):
+CHECKS["C13"] = dict(level="other", design="DESIGN 5/C13", engine="E1",
+   technique="CrossHair symbolic execution of the real apply_patches / apply_monkey_patches with symbolic specs, fault position and body exception",
+   text="The real patch context managers run on stub targets; which target/attribute/kind each spec names, WHICH make_value / getattr / patch factory raises and whether the body raises are solver variables; the post-condition is that every attribute resolves to its pre-state object (or is absent again) and the ref-count table is empty, for nesting depth 1-2. Counterexamples are replayed concretely. The x64 context managers are executed on all (previous, requested, raises) combinations.",
+   note="Partial claim: patch-stack and x64 kernels only (<=3 specs, 2 targets, 3 attributes). That the ~510 live binding specs and JAX's jit caches leave eager behaviour unchanged is a whole-process property outside this technique.")
+
+for _k in ("C13", "C17", "C18", "C19"):
     CHECKS[_k]["engine"] = "E1"
 
 NOT_APPLICABLE = {
